@@ -1156,6 +1156,10 @@ class Interp:
             return self.ops.ext_obj_attr(self, objv, attr, node)
         if attr == "__class__":
             return VClass(cls)
+        if attr == "__dict__":
+            d = DictObj(inst.attrs, origin=inst.origin)  # live view of the instance attributes
+            self.all_dicts.append(d)
+            return VDict(d)
         p = cls.find_prop(attr)
         if p is not None and "get" in p:
             return self.call_function(VFunc(p["get"], objv), [], {}, node)
@@ -1325,12 +1329,13 @@ class Interp:
             return
         if isinstance(base, VDict):
             self.container_mutation(base, node, "dict store")
-            ok, k = const_of(idx)
-            if base.obj.items is not None and ok:
+            from .values import dict_key
+
+            ok, k = dict_key(idx)
+            if base.obj.items is not None:
                 base.obj.items[k] = v
-            elif base.obj.items is not None:
-                base.obj.extra_unknown = True
-                base.obj.items[("sym", repr(getattr(idx, "tag", idx)))] = v
+                if not ok and not (isinstance(k, tuple) and k and k[0] != "sym"):
+                    base.obj.extra_unknown = True
             return
         if isinstance(base, VObj):
             if base.inst.cls is not None and base.inst.cls.find_method("__setitem__"):
